@@ -975,6 +975,22 @@ fn handle_fn(
                 edits.insert_last(l.whole.end, " }");
                 log.push(format!("R6:for->while loop {}", n));
             }
+            "drop_nested_fn" => {
+                let name = e["text"].as_str().unwrap_or("");
+                let mut done = false;
+                for st in &block.stmts {
+                    if let syn::Stmt::Item(syn::Item::Fn(f)) = st {
+                        if f.sig.ident == name {
+                            edits.replace(br(st), "");
+                            done = true;
+                        }
+                    }
+                }
+                if !done {
+                    return Err(format!("lost anchor: nested fn {} not found", name));
+                }
+                log.push(format!("R19:nested fn {} lifted out of the body (verified as its own function)", name));
+            }
             "guard_try" => {
                 // R13: every `E?` becomes an explicit match whose early return first asserts the given ghost condition
                 // (no error accumulator created in this function is still live: it would panic on drop)
@@ -1235,6 +1251,26 @@ fn handle(req: &Value, features: &[String], cache: &mut HashMap<String, Result<S
     let mut scope = Scope::Items(live_items(s.file.items.iter(), features));
     let mut found = None;
     for sel in &path[start_idx..] {
+        // a `fn x` selector after a function selects a nested fn item declared in that function's body
+        if let Some(Found::Fn { block, .. }) = &found {
+            if let Some(name) = sel.strip_prefix("fn ") {
+                let mut hit = None;
+                for st in &block.stmts {
+                    if let syn::Stmt::Item(syn::Item::Fn(f)) = st {
+                        if f.sig.ident == name.trim() {
+                            hit = Some(f);
+                        }
+                    }
+                }
+                match hit {
+                    Some(f) => {
+                        found = Some(Found::Fn { attrs: &f.attrs, sig: &f.sig, block: &f.block });
+                        continue;
+                    }
+                    None => return Err(format!("nested fn {} not found", name)),
+                }
+            }
+        }
         if found.is_some() {
             return Err(format!("selector `{}` after a leaf", sel));
         }
